@@ -85,9 +85,8 @@ def handwritten(tier_quick: bool):
                       ("all",), ("append", C(4, 8, 4)), ("append", C(4, 4, 2)), ("append", C(4, 4)), ("all",)],
                  init_cfgs=[I], K=2, needs_hist=(1,), chains=2, J=4, store_kernel_states=True),
             dict(ops=[("all",)], init_cfgs=[I, C(1, 5, 2), C(2, 10, 5), C(2, 5), C(1, 5, 5), C(4, 10, 2)],
-                 # (a kernel that asks for the history must have its own keys tracked: liesel's HMC / NUTS - and the
-                 # probe - index the history by their position keys, so only kernel 2 asks here)
-                 K=2, needs_hist=(2,), chains=2, via_builder=True, excluded=("p1",)),
+                 # (the history holds the tracked positions only: kernel 1 does not find its own key in it)
+                 K=2, needs_hist=(1, 2), chains=2, via_builder=True, excluded=("p1",)),
         ]
     return sc
 
